@@ -6,6 +6,7 @@ import BV.Drv.Ash
 import BV.Drv.C05
 import BV.Drv.C07
 import BV.Drv.C06
+import BV.Drv.C06Src
 import BV.Drv.C08
 import BV.Drv.C11
 import BV.Drv.C09
@@ -28,6 +29,7 @@ def dispatch (line : String) : String :=
   | "c05" :: rest => BV.Drv.C05.handle rest
   | "c07" :: rest => BV.Drv.C07.handle rest
   | "c06" :: rest => BV.Drv.C06.handle rest
+  | "c06src" :: rest => BV.Drv.C06Src.handle rest
   | "c08" :: rest => BV.Drv.C08.handle rest
   | "c11" :: rest => BV.Drv.C11.handle rest
   | "c09" :: rest => BV.Drv.C09.handle rest
